@@ -200,7 +200,9 @@ def spin0_obligations(values, pre, atoms, lmax):
 def small_parts(report):
     from aurel import maths
     bad = [n for n in range(0, 13) if int(maths.factorial(n)) != math.factorial(n)]
-    report.record('maths.factorial(n) == n! for n <= 12', 'holds' if not bad else 'sat', group='helpers (concrete)', kind='concrete', trivial=True)
+    # beyond 2^53 the float result is n! to round-off (n <= 64 covers l + |m| for every l <= 32)
+    bad += [n for n in range(13, 65) if not abs(F(float(maths.factorial(n))) / math.factorial(n) - 1) < F(1, 10 ** 12)]
+    report.record('maths.factorial(n) == n! for n <= 12, and to 1e-12 relative for n <= 64', 'holds' if not bad else 'sat', group='helpers (concrete)', kind='concrete', trivial=True)
     if bad:
         report.violation('factorial', f'factorial wrong for {bad}', report.write_replay('factorial', dict(n=bad)))
 
@@ -308,6 +310,79 @@ def interpolate_guard(report, ntargets=2):
                              report.write_replay('interpolate_guard', dict(model=model)))
         else:
             report.harness_errors.append(f'interpolate guard: symbolic path ({raised}) not reproduced: {model}')
+
+
+def interpolate_plumbing(report):
+    """numerical.interpolate pairs the three target arrays position by position whatever their memory layout and returns
+    the interpolator's values in the shape of the targets: with the interpolator stubbed by a *linear symbolic field*
+    u(x,y,z) = x + 10 y + 100 z evaluated on the rows it is handed, out[idx] must be u(x[idx], y[idx], z[idx]) for
+    symbolic target coordinates stored C-ordered, as a transposed view, and Fortran-ordered."""
+    from aurel import numerical
+
+    class FakeRGI:
+        def __init__(self, *a, **k):
+            pass
+
+        def __call__(self, pts):
+            pts = np.asarray(pts, dtype=object)
+            return np.array([pts[j, 0] + pts[j, 1] * 10 + pts[j, 2] * 100 for j in range(pts.shape[0])], dtype=object)
+
+    class FakeScipy:
+        class interpolate:
+            RegularGridInterpolator = FakeRGI
+    saved = numerical.scipy
+    numerical.scipy = FakeScipy
+    layouts = {'C': lambda a: a, 'transposed view': lambda a: a.T.copy().T if False else np.ascontiguousarray(a.T).T,
+               'Fortran': lambda a: np.asfortranarray(a)}
+    bad, n = [], 0
+    try:
+        for combo in itertools.product(layouts, repeat=3):
+            pre = []
+            g = [np.array([sym(f'g{d}a'), sym(f'g{d}b')], dtype=object) for d in range(3)]
+            t = []
+            for d in range(3):
+                base = np.empty((2, 3), dtype=object)
+                prev = g[d][0]
+                for k, idx in enumerate(np.ndindex(2, 3)):
+                    base[idx] = sym(f't{d}_{k}')
+                    pre.append(tm.lt(prev.t, base[idx].t))        # a fixed order: min / max are decided, not forked
+                    prev = base[idx]
+                pre.append(tm.lt(prev.t, g[d][1].t))
+                t.append(layouts[combo[d]](base))
+            with use_ctx(Ctx(pre=pre, fork=False)) as c:
+                out = numerical.interpolate(np.zeros((2, 2, 2)), tuple(g), tuple(t))
+                n += 1
+                ok = np.shape(out) == (2, 3)
+                if ok:
+                    for idx in np.ndindex(2, 3):
+                        want = t[0][idx] + t[1][idx] * 10 + t[2][idx] * 100
+                        if c.valid(tm.eq(out[idx].t, want.t)) is not True:
+                            ok = False
+                if not ok:
+                    bad.append(combo)
+    except Inconclusive as e:
+        report.inconc('interpolate plumbing', str(e))
+    finally:
+        numerical.scipy = saved
+    report.record(f'numerical.interpolate pairs targets by position for every memory layout ({n} layout combinations, symbolic targets)',
+                  'unsat' if not bad else 'sat', backend='z3py-inproc', sha=f'{n}layouts', group='interpolation plumbing (symbolic targets, stub field)')
+    if bad:
+        # float replay on the real scipy interpolator with a trilinear field
+        lay = {'C': lambda a: a, 'transposed view': lambda a: np.ascontiguousarray(a.T).T, 'Fortran': np.asfortranarray}
+        gx = np.linspace(0.0, 1.0, 4)
+        X, Y, Z = np.meshgrid(gx, gx, gx, indexing='ij')
+        val = 1 + 2 * X + 3 * Y + 5 * Z
+        rng = np.random.default_rng(5)
+        tx, ty, tz = (rng.uniform(0.1, 0.9, size=(2, 3)) for _ in range(3))
+        for combo in bad:
+            got = numerical.interpolate(val, (gx, gx, gx), (lay[combo[0]](tx), lay[combo[1]](ty), lay[combo[2]](tz)))
+            dev = float(np.max(np.abs(np.asarray(got) - (1 + 2 * tx + 3 * ty + 5 * tz)))) if np.shape(got) == (2, 3) else float('inf')
+            if dev > 1e-9:
+                report.violation('interpolate plumbing', f'interpolate with target layouts {combo}: a trilinear field is returned with error {dev:.3g}',
+                                 report.write_replay('interpolate_plumbing', dict(layouts=list(combo), dev=dev)))
+                break
+        else:
+            report.harness_errors.append(f'interpolate plumbing: symbolic mismatch for {bad[:2]} not reproduced on floats')
 
 
 def psi4lm_geometry(report):
@@ -424,6 +499,7 @@ def main(report, tier, seed, workers, calibrate=False):
         rec = reconstruct_obligations(values, pre)
         small_parts(report)
         interpolate_guard(report, ntargets=1 if tier == 'quick' else 2)
+        interpolate_plumbing(report)
         geo = psi4lm_geometry(report)
     report.functions |= ft.seen
     report.extra['source_sha1'] = source_digest(FILES)
